@@ -162,6 +162,12 @@ func refJSON(b *hc.Builder, tree map[string]any, variant int) string {
 					sb.WriteByte(',')
 				}
 			}
+			if isRec, _ := t["r"].(bool); isRec && !raw && variant == 6 { // a null member ("absent or null") before the others
+				sb.WriteString(`"zz_null":null`)
+				if len(entries) > 0 {
+					sb.WriteByte(',')
+				}
+			}
 			for i, e := range entries {
 				em := e.(map[string]any)
 				if i > 0 {
